@@ -1,4 +1,4 @@
-CONSTANTS W = 3 Target = 2 Epochs = 2 KeepSender = FALSE JoinUnwrap = FALSE Faults <- NoFaults QMax = 2 Outcomes <- OutQuick BchThreshold = 0 RQMax = 2 BoundedSend = FALSE MaxFrames = 4
+CONSTANTS W = 2 Target = 2 Epochs = 2 KeepSender = FALSE JoinUnwrap = FALSE Faults <- NoFaults QMax = 2 Outcomes <- OutAll BchThreshold = 0 RQMax = 2 BoundedSend = FALSE MaxFrames = 3
 SPECIFICATION Spec
 VIEW View
 CONSTRAINT FrameBound
